@@ -1557,6 +1557,19 @@ class Engine:
                 other = a if b is None else b
                 r = self.is_none(other)
                 return r if isinstance(op, ast.Is) else z3.Not(r)
+            if self.c.consts.get('__bool_identity__') and (isinstance(a, bool) or isinstance(b, bool)):
+                # (C14) `x is True` / `x is False`: identity with the bool singletons.  An int/float/str object is never that
+                # singleton (`0 is False` is False although `0 == False`); only a bool-typed operand can be.  Opt-in per
+                # contract (consts['__bool_identity__']); without it `is` keeps being read as `==` as before.
+                const, other = (a, b) if isinstance(a, bool) else (b, a)
+                to_ = type_of_value(other)
+                if to_ == 'bool':
+                    r = self.equal(other, const)
+                elif to_ in ('int', 'real', 'str') and not isinstance(other, bool):
+                    r = z3.BoolVal(False)
+                else:
+                    raise Undecided('identity test of %s against a bool singleton' % type_key(to_))
+                return r if isinstance(op, ast.Is) else z3.Not(r)
             op = ast.Eq() if isinstance(op, ast.Is) else ast.NotEq()
         if isinstance(op, (ast.In, ast.NotIn)):
             r = self.contains(b, a, st)
@@ -1662,6 +1675,8 @@ class Engine:
             return z3.Exists([j], z3.And(0 <= j, j < cont.len, z3.Select(cont.arr, j) == to_z3(x, cont.et)))
         if isinstance(cont, z3.ArrayRef) and cont.sort().range() == z3.BoolSort():
             return z3.Select(cont, to_z3(x))
+        if isinstance(cont, z3.ExprRef) and cont.sort() == z3.StringSort() and (isinstance(x, str) or (isinstance(x, z3.ExprRef) and x.sort() == z3.StringSort())):
+            return z3.Contains(cont, self.pystr(x))  # (C14) `sub in s` on str values: substring test
         raise Undecided('membership in %r' % (cont,))
 
     def ev_BinOp(self, node, st):
@@ -1885,6 +1900,13 @@ class Engine:
 
     def ev_Tuple(self, node, st):
         return tuple(self.ev(e, st) for e in node.elts)
+
+    def ev_Set(self, node, st):
+        # (C14) a set display of literals, as in `x in {'closed', 'deleted'}`: a constant frozenset (membership only)
+        vals = [self.ev(e, st) for e in node.elts]
+        if all((isinstance(v, (int, str, bool, bytes)) or v is None) for v in vals):
+            return frozenset(vals)
+        raise Undecided('set display with non-literal elements')
 
     def ev_Subscript(self, node, st):
         cont = self.ev(node.value, st)
